@@ -53,13 +53,13 @@ structure C05qInv (w : Wiring) (c : MonCtx) (s : AState) (σ : C05qSt) (σ5 : C0
   grace : σ.graceful = σ2.graceful
   /-- the send table of `monC05q` is part of the operation table of `monC02` -/
   sends : ∀ o m, lookup o σ.sends = some m →
-    ∃ k late, lookup o σ2.ops = some (k, late) ∧ (k = .send m ∨ k = .trySend m)
+    ∃ k late, lookup o σ2.ops = some (k, late) ∧ (k = .send m ∨ k = .trySend m ∨ k = .tryForce m)
   failPh : failPhase s.phase = true → σ.failure = true
   /-- while the loop runs: an acknowledged message has been handled or waits in the mailbox -/
   acked : excused c σ = false → pastLoop s.phase = false → ∀ m ∈ σ.sentOk, m ∈ σ.handled ∨ inQ s m
   /-- ... and so does the message of a send that is still in flight -/
   pend : excused c σ = false → pastLoop s.phase = false → ∀ r ∈ s.ops, r.st = .pending →
-    ∀ m, (r.kind = .send m ∨ r.kind = .trySend m) → m ∈ σ.handled ∨ inQ s m
+    ∀ m, (r.kind = .send m ∨ r.kind = .trySend m ∨ r.kind = .tryForce m) → m ∈ σ.handled ∨ inQ s m
   /-- once the loop has left for no other reason than that no sender is left: nobody can submit any more,
       and everything acknowledged has been handled -/
   past : excused c σ = false → pastLoop s.phase = true → Dead05 s ∧ ∀ m ∈ σ.sentOk, m ∈ σ.handled
@@ -77,7 +77,7 @@ theorem c05q_init (w : Wiring) (c : MonCtx) :
 theorem ret_ok_send {w : Wiring} {c : MonCtx} {s s' : AState} {σ : C05qSt} {σ5 : C05St} {σ2 : C02St}
     (hi : C05qInv w c s σ σ5 σ2) {o m : Nat} (hs : stepRet s o .ok = some s')
     (hl : lookup o σ.sends = some m) :
-    ∃ rec ∈ s.ops, rec.st = .pending ∧ (rec.kind = .send m ∨ rec.kind = .trySend m) := by
+    ∃ rec ∈ s.ops, rec.st = .pending ∧ (rec.kind = .send m ∨ rec.kind = .trySend m ∨ rec.kind = .tryForce m) := by
   obtain ⟨rec, hfind, hexp, _, hro⟩ := stepRet_ops hs
   obtain ⟨hr, _⟩ := findOp_some_mem hfind
   obtain ⟨late, h1, _, _, _⟩ := opOk_parts (hi.i2.ops rec hr)
@@ -89,13 +89,13 @@ theorem ret_ok_send {w : Wiring} {c : MonCtx} {s s' : AState} {σ : C05qSt} {σ5
   unfold retExpect at hexp
   cases hst : rec.st <;> simp only [hst] at hexp
   case pending => rfl
-  all_goals (rcases hk with hk | hk <;> simp [hk] at hexp)
+  all_goals (rcases hk with hk | hk | hk <;> simp [hk] at hexp)
 
 theorem sends_step {σ : C05qSt} {σ2 : C02St} {l : Label} (c : MonCtx) (hf : freshFor σ2 l)
     (h : ∀ o m, lookup o σ.sends = some m →
-      ∃ k late, lookup o σ2.ops = some (k, late) ∧ (k = .send m ∨ k = .trySend m)) :
+      ∃ k late, lookup o σ2.ops = some (k, late) ∧ (k = .send m ∨ k = .trySend m ∨ k = .tryForce m)) :
     ∀ o m, lookup o (next05q c σ l).sends = some m →
-      ∃ k late, lookup o (next02 σ2 l).ops = some (k, late) ∧ (k = .send m ∨ k = .trySend m) := by
+      ∃ k late, lookup o (next02 σ2 l).ops = some (k, late) ∧ (k = .send m ∨ k = .trySend m ∨ k = .tryForce m) := by
   intro o m hl
   cases l
   case begin o' h' k =>
@@ -117,7 +117,16 @@ theorem sends_step {σ : C05qSt} {σ2 : C02St} {l : Label} (c : MonCtx) (hf : fr
       · subst he
         rw [lookup_cons_eq] at hl ⊢
         simp at hl; subst hl
-        exact ⟨_, _, rfl, .inr rfl⟩
+        exact ⟨_, _, rfl, .inr (.inl rfl)⟩
+      · rw [lookup_cons_ne he] at hl ⊢
+        exact h o m hl
+    case tryForce m' =>
+      simp only [next05q] at hl
+      by_cases he : o' = o
+      · subst he
+        rw [lookup_cons_eq] at hl ⊢
+        simp at hl; subst hl
+        exact ⟨_, _, rfl, .inr (.inr rfl)⟩
       · rw [lookup_cons_ne he] at hl ⊢
         exact h o m hl
     all_goals
@@ -176,14 +185,14 @@ theorem acked_step {w : Wiring} {c : MonCtx} {s s' : AState} {σ : C05qSt} {σ5 
 theorem pend_step {w : Wiring} {c : MonCtx} {s s' : AState} {σ : C05qSt} {σ5 : C05St} {σ2 : C02St} {l : Label}
     (hi : C05qInv w c s σ σ5 σ2) (hs : step w s l = some s')
     (he' : excused c (next05q c σ l) = false) (hp' : pastLoop s'.phase = false) :
-    ∀ r ∈ s'.ops, r.st = .pending → ∀ m, (r.kind = .send m ∨ r.kind = .trySend m) →
+    ∀ r ∈ s'.ops, r.st = .pending → ∀ m, (r.kind = .send m ∨ r.kind = .trySend m ∨ r.kind = .tryForce m) →
       m ∈ (next05q c σ l).handled ∨ inQ s' m := by
   have he := excused_next he'
   have hp : pastLoop s.phase = false := by
     cases h : pastLoop s.phase
     · rfl
     · rw [pastLoop_step hs h] at hp'; cases hp'
-  have old : ∀ r ∈ s.ops, r.st = .pending → ∀ m, (r.kind = .send m ∨ r.kind = .trySend m) →
+  have old : ∀ r ∈ s.ops, r.st = .pending → ∀ m, (r.kind = .send m ∨ r.kind = .trySend m ∨ r.kind = .tryForce m) →
       m ∈ (next05q c σ l).handled ∨ inQ s' m :=
     fun r hr hst m hk => keep_msg hs hp' (hi.pend he hp r hr hst m hk)
   by_cases hedge : l.isOpEdge = true
@@ -200,10 +209,10 @@ theorem pend_step {w : Wiring} {c : MonCtx} {s s' : AState} {σ : C05qSt} {σ5 :
         simp only at hst hk
         cases hout with
         | refused e hst' _ _ => rw [hst] at hst'; cases hst'
-        | wait hpl _ _ => rcases hk with hk | hk <;> (subst hk; simp [planPl] at hpl)
+        | wait hpl _ _ => rcases hk with hk | hk | hk <;> (subst hk; simp [planPl] at hpl)
         | sent pl tok hpl _ hc _ =>
           have : pl = .msg m none := by
-            rcases hk with hk | hk <;> (subst hk; simp [planPl] at hpl; exact hpl.symm)
+            rcases hk with hk | hk | hk <;> (subst hk; simp [planPl] at hpl; exact hpl.symm)
           subst this
           exact .inr (inQ_new hc)
     case ret o res =>
@@ -278,8 +287,12 @@ theorem past_step {w : Wiring} (hw : WellWired05 w) {c : MonCtx} {s s' : AState}
     · exfalso
       simp only [step] at hs
       obtain ⟨rec, hr, hst, hk⟩ := ret_ok_send hi hs hl
-      have hwk : isWaitOp rec.kind = true := by rcases hk with hk | hk <;> simp [hk, isWaitOp]
-      obtain ⟨e, he⟩ := (hd.no rec hr).2 hwk
-      rw [hst] at he; cases he
+      have hwk : isWaitOp rec.kind = true ∨ holderKind rec.kind = true := by
+        rcases hk with hk | hk | hk <;> simp [hk, isWaitOp, holderKind]
+      rcases hwk with hwk | hwk
+      · obtain ⟨e, he⟩ := (hd.no rec hr).2 hwk
+        rw [hst] at he; cases he
+      · have he := (hd.no rec hr).1 hwk
+        rw [hst] at he; cases he
 
 end Hannibal
